@@ -1,7 +1,10 @@
 # C11 orchestration (sourced by ./check): the same check binary in the std and the no_std build
 _t0=$(date +%s.%N)
-build rel c11 || exit 2
-build nostd c11 || { echo "MACHINERY: num-bigint does not build without std (see C16); C11 cannot compare configurations" >&2; exit 2; }
+( build rel c11; echo $? > "$ROOT/target/c11-build-rel.rc" ) &
+build nostd c11; _b=$?
+wait
+[ "$(cat "$ROOT/target/c11-build-rel.rc")" = 0 ] || exit 2
+[ $_b -eq 0 ] || { echo "MACHINERY: num-bigint does not build without std (see C16); C11 cannot compare configurations" >&2; exit 2; }
 _rc=0
 NBMC_PART=std NBMC_CONFIG=rel "$(bindir rel)/c11" "$tier"; _r=$?; [ $_r -gt $_rc ] && _rc=$_r
 NBMC_PART=nostd NBMC_CONFIG=nostd "$(bindir nostd)/c11" "$tier"; _r=$?; [ $_r -gt $_rc ] && _rc=$_r
